@@ -31,7 +31,7 @@ def parseItems : Nat → List String → Option String → Option (List Sx × Li
       | none => none
     else if w == "(" then
       match parseItems f ws (some ")") with
-      | some (xs, r) => cont (.list xs) r
+      | some (xs, r) => cont (if xs.isEmpty then .null else .list xs) r     -- `()` is nil
       | none => none
     else if w == "{" then
       match parseItems f ws (some "}") with
